@@ -54,6 +54,13 @@ CASES = [
      "(struct 0 transparent 1 (f (uint 1) 1 1 0 1) (f (list (uint 1)) 0 0 0 0))"),
     ("transparent_2_live", False, True, '#[derive(Encode, Decode)]\n#[ssz(struct_behaviour = "transparent")]\nstruct S { a: u8, b: Vec<u8> }\n',
      "(struct 0 transparent 1 (f (uint 1) 0 0 0 0) (f (list (uint 1)) 0 0 0 0))"),
+    # attributes that are not the macro's own, before / between / after `#[ssz(..)]`: they carry no SSZ meaning
+    ("container_documented_skip", True, True, '#[derive(Encode, Decode)]\nstruct S { a: u8,\n    /// not on the wire\n    #[ssz(skip_serializing, skip_deserializing)]\n    b: std::marker::PhantomData<String>, c: Vec<u16> }\n',
+     "(struct 0 container 1 (f (uint 1) 0 0 0 0) (f (list (uint 1)) 1 1 0 1) (f (list (uint 2)) 0 0 0 0))"),
+    ("transparent_documented_skip", True, True, '#[derive(Encode, Decode)]\n#[ssz(struct_behaviour = "transparent")]\nstruct S {\n    /// a tag kept in memory only\n    #[allow(dead_code)]\n    #[ssz(skip_serializing, skip_deserializing)]\n    a: u8,\n    b: Vec<u8> }\n',
+     "(struct 0 transparent 1 (f (uint 1) 1 1 0 1) (f (list (uint 1)) 0 0 0 0))"),
+    ("field_two_ssz_attrs_separated", False, True, '#[derive(Encode, Decode)]\nstruct S { #[ssz(skip_serializing)] #[allow(dead_code)] #[ssz(skip_deserializing)] a: u8, b: u8 }\n',
+     "(struct 0 container 1 (f (uint 1) 1 1 0 2) (f (uint 1) 0 0 0 0))"),
     ("transparent_tuple_1_live", True, False, '#[derive(Encode, Decode)]\n#[ssz(struct_behaviour = "transparent")]\nstruct S(Vec<u8>, #[ssz(skip_serializing, skip_deserializing)] u8);\n',
      "(struct 0 transparent 0 (f (list (uint 1)) 0 0 0 0) (f (uint 1) 1 1 0 1))"),
 ]
